@@ -6,8 +6,16 @@ import (
 	gkm "github.com/go-kit/kit/metrics"
 )
 
+// dstError is an error of the destination of a copy: what the source sends
+// can no longer be delivered.
+type dstError struct{ err error }
+
+func (e *dstError) Error() string { return e.err.Error() }
+func (e *dstError) Unwrap() error { return e.err }
+
 // copyBuffer is an adapted version of io.copyBuffer which updates a
-// counter instead of returning the total bytes written.
+// counter instead of returning the total bytes written. An error of dst
+// is returned as *dstError.
 func copyBuffer(dst io.Writer, src io.Reader, c gkm.Counter) (err error) {
 	buf := make([]byte, 32*1024)
 	for {
@@ -20,11 +28,11 @@ func copyBuffer(dst io.Writer, src io.Reader, c gkm.Counter) (err error) {
 				}
 			}
 			if ew != nil {
-				err = ew
+				err = &dstError{ew}
 				break
 			}
 			if nr != nw {
-				err = io.ErrShortWrite
+				err = &dstError{io.ErrShortWrite}
 				break
 			}
 		}
